@@ -646,6 +646,9 @@ func (e *specEnv) callSpec(n *ECall) Val {
 			return VBool{"true"}
 		}
 		return VBool{"false"}
+	case "xmlHasDecl":
+		b := argv(0).(VSlice)
+		return VBool{app(ex.decls.fun("xmlHasDecl", []string{SBytes, SInt, SInt}, SBool), e.memOf(b)[0], b.Off, b.Len)}
 	case "errid":
 		switch v := argv(0).(type) {
 		case VIface:
